@@ -200,6 +200,36 @@ LIMITS = p_obj("ZipBombLimits", {
     "max_total_compression_ratio": p_real(), "max_entry_compression_ratio": p_real()})
 
 
+def limits_param(fn_name):
+    """The `limits` parameter of a guard function.  A call that omits it gets what the REAL signature says: the default
+    expression of that parameter is read from the source and evaluated in the guard module (the module-level default
+    configuration object, field values from the real class body).  Anything else -> the call is OUT-OF-SUBSET."""
+    mk = p_obj("ZipBombLimits", {
+        "max_entries": p_int(), "max_total_uncompressed_bytes": p_int(), "max_single_uncompressed_bytes": p_int(),
+        "max_total_compression_ratio": p_real(), "max_entry_compression_ratio": p_real()})
+
+    def default(ex, st):
+        from pyvc.ops import Unsupported
+        import ast as _ast
+        node = ex.module.functions.get(fn_name) if ex.module.rel == ZB else None
+        if node is None:
+            raise Unsupported(f"default of `limits` of {fn_name}: called from another module")
+        a = node.args
+        dflt = None
+        for arg, d in list(zip(a.kwonlyargs, a.kw_defaults)) + list(zip((a.posonlyargs + a.args)[::-1], a.defaults[::-1])):
+            if arg.arg == "limits":
+                dflt = d
+        v = None
+        if isinstance(dflt, _ast.Name) and hasattr(ex, "config_object"):
+            v = ex.config_object(dflt.id, st)
+        if v is None:
+            raise Unsupported(f"call of {fn_name} without `limits`: its default "
+                              f"`{_ast.unparse(dflt) if dflt is not None else '<none>'}` is not a readable configuration object")
+        return v
+    mk.default = default
+    return mk
+
+
 def G(fn):
     """Contract clause guarded against shapes it was not written for: a Python exception inside a clause on changed code is a
     failure of the sidecar to line up with the code (OUT-OF-SUBSET -> native replay decides), never an engine error."""
@@ -250,7 +280,7 @@ def _contracts(reg):
     ))
     out.append(FnContract(
         target=f"{ZB}::validate_zipfile",
-        params=[("zf", p_ext("ZipFile")), ("limits", LIMITS), ("source", p_opt(p_str()))],
+        params=[("zf", p_ext("ZipFile")), ("limits", limits_param("validate_zipfile")), ("source", p_opt(p_str()))],
         requires=requires,
         hyps=lambda c: mono_lemma(c.args["zf"].t),
         ensures=[("accepts-only-if-not-spec_reject", lambda c: z3.Not(spec_reject(c.args["zf"].t, limits_of(c))))],
@@ -273,7 +303,7 @@ def _contracts(reg):
 
     out.append(FnContract(
         target=f"{ZB}::validate_zip_bytesio",
-        params=[("file_like", p_ext("BytesIO")), ("limits", LIMITS), ("source", p_opt(p_str()))],
+        params=[("file_like", p_ext("BytesIO")), ("limits", limits_param("validate_zip_bytesio")), ("source", p_opt(p_str()))],
         requires=pos_entry,
         ensures=[("position-restored", pos_restored),
                  ("no-container-left-open", lambda c: z3.BoolVal(not c.st.ghost.get("open_zips")))],
@@ -283,7 +313,7 @@ def _contracts(reg):
     ))
     out.append(FnContract(
         target=f"{ZB}::open_zipfile",
-        params=[("file_like", p_ext("BytesIO")), ("limits", LIMITS), ("source", p_opt(p_str()))],
+        params=[("file_like", p_ext("BytesIO")), ("limits", limits_param("open_zipfile")), ("source", p_opt(p_str()))],
         requires=lim_req,
         ensures=[("returned-container-validated", lambda c: z3.Not(spec_reject(c.result.t, limits_of(c)))),
                  ("returned-container-open", lambda c: z3.BoolVal(c.st.ghost.get("open_zips") == frozenset({c.result.t.get_id()})))],
@@ -356,6 +386,8 @@ class C11Executor(_verify.Executor):
                     and not (a.vararg or a.kwarg or a.kwonlyargs or a.posonlyargs) and len(a.args) == len(it.args) and not callee.decorator_list:
                 comp = body[0].value
                 subst = {p.arg: arg.id for p, arg in zip(a.args, it.args)}
+        if comp is None:
+            comp = self._filter_call_as_genexp(it, st)
         if comp is None or len(comp.generators) != 1:
             return None
         g = comp.generators[0]
@@ -399,6 +431,60 @@ class C11Executor(_verify.Executor):
         self._desugared[id(new)] = (s, new)
         return new
 
+    def _filter_call_as_genexp(self, it, st):
+        """`filter(P, SRC)` / `itertools.filterfalse(P, SRC)` (both lazy) read as `(y for y in SRC if [not] P(y))`; P is a
+        one-parameter lambda (its body becomes the test) or a plain name (the call P(y) is the test; `None` = truthiness).
+        The builtin / itertools function is recognised through the real import table, not by spelling alone."""
+        import ast as _ast
+        import copy
+        if not (isinstance(it, _ast.Call) and len(it.args) == 2 and not it.keywords and not any(isinstance(a, _ast.Starred) for a in it.args)):
+            return None
+        f = it.func
+        neg = None
+        if isinstance(f, _ast.Name) and st.lookup(f.id) is None and f.id not in self.module.functions and f.id not in self.module.assigns:
+            imp = self.module.imports.get(f.id)
+            if f.id == "filter" and imp is None:
+                neg = False
+            elif imp == "itertools.filterfalse":
+                neg = True
+        elif isinstance(f, _ast.Attribute) and isinstance(f.value, _ast.Name) and f.attr == "filterfalse" \
+                and st.lookup(f.value.id) is None and self.module.imports.get(f.value.id) == "itertools":
+            neg = True
+        if neg is None:
+            return None
+        pred, src = it.args
+        item = "__c11_f"
+        if isinstance(pred, _ast.Lambda):
+            a = pred.args
+            if len(a.args) != 1 or a.vararg or a.kwarg or a.kwonlyargs or a.posonlyargs or a.defaults:
+                return None
+            par = a.args[0].arg
+
+            class R(_ast.NodeTransformer):
+                def visit_Name(self, n):
+                    return _ast.copy_location(_ast.Name(id=item, ctx=n.ctx), n) if n.id == par else n
+
+                def visit_Lambda(self, n):       # an inner lambda may rebind the name: not a shape read here
+                    raise LookupError("nested lambda")
+            try:
+                test = R().visit(copy.deepcopy(pred.body))
+            except LookupError:
+                return None
+        elif isinstance(pred, _ast.Name):
+            test = _ast.Call(func=_ast.Name(id=pred.id, ctx=_ast.Load()), args=[_ast.Name(id=item, ctx=_ast.Load())], keywords=[])
+        elif isinstance(pred, _ast.Constant) and pred.value is None:
+            test = _ast.Name(id=item, ctx=_ast.Load())
+        else:
+            return None
+        if neg:
+            test = _ast.UnaryOp(op=_ast.Not(), operand=test)
+        comp = _ast.GeneratorExp(elt=_ast.Name(id=item, ctx=_ast.Load()),
+                                 generators=[_ast.comprehension(target=_ast.Name(id=item, ctx=_ast.Store()), iter=copy.deepcopy(src),
+                                                                ifs=[test], is_async=0)])
+        _ast.copy_location(comp, it)
+        _ast.fix_missing_locations(comp)
+        return comp
+
     def s_For(self, s, st):
         try:
             new = self._filter_loop(s, st)
@@ -409,6 +495,65 @@ class C11Executor(_verify.Executor):
     def loop_spec(self, node):
         hit = getattr(self, "_desugared", {}).get(id(node))
         return super().loop_spec(hit[0] if hit is not None else node)
+
+    # -- the module-level default configuration: a name bound exactly once at module level to `FrozenDataclass(**consts)` is an
+    #    immutable object whose fields are the constants the REAL class body / keywords give (evaluated, not assumed); one heap
+    #    object per path.  Any other shape stays what the engine makes of it (unknown value).
+    def config_object(self, name, st):
+        import ast as _ast
+        from pyvc.state import HeapObj
+        from pyvc.values import VRef
+        from contracts.C11_flow import const_value
+        m = self.module
+        e = m.assigns.get(name)
+        if not (isinstance(e, _ast.Call) and isinstance(e.func, _ast.Name) and e.func.id in self._frozen_classes() and not e.args
+                and all(k.arg for k in e.keywords)):
+            return None
+        stores = [n for n in _ast.walk(m.tree) if (isinstance(n, _ast.Name) and n.id == name and isinstance(n.ctx, (_ast.Store, _ast.Del)))
+                  or (isinstance(n, _ast.Global) and name in n.names)]
+        if len(stores) != 1:
+            return None
+        key = f"c11!config:{name}"
+        ref = st.ghost.get(key)
+        if ref is not None and ref in st.heap:
+            return VRef(ref)
+        cls = m.classes[e.func.id]
+        if any(isinstance(n, _ast.FunctionDef) and n.name in ("__init__", "__new__", "__getattribute__", "__getattr__") for n in cls.body) or \
+                [b for b in cls.bases if not (isinstance(b, _ast.Name) and b.id == "object")]:
+            return None
+        fields = {}
+        try:
+            for n in cls.body:
+                if isinstance(n, _ast.AnnAssign) and isinstance(n.target, _ast.Name):
+                    if n.value is None:
+                        fields[n.target.id] = None
+                    else:
+                        fields[n.target.id] = const_value(m, n.value)
+            for k in e.keywords:
+                if k.arg not in fields:
+                    return None
+                fields[k.arg] = const_value(m, k.value)
+        except LookupError:
+            return None
+        if not fields or any(v is None for v in fields.values()):
+            return None
+        data = {}
+        for f, v in fields.items():
+            ann = next((_ast.unparse(n.annotation) for n in cls.body if isinstance(n, _ast.AnnAssign) and getattr(n.target, "id", None) == f), "")
+            data[f] = ops.lift(float(v) if ann == "float" and isinstance(v, int) else v)
+        ref = st.alloc(HeapObj("obj", data, e.func.id, fresh=False), self.refs)
+        st.ghost[key] = ref
+        return VRef(ref)
+
+    def e_Name(self, n, st):
+        if st.lookup(n.id) is None and n.id in self.module.assigns:
+            try:
+                v = self.config_object(n.id, st)
+            except Exception:  # noqa -- not a shape read here: the engine decides
+                v = None
+            if v is not None:
+                return [(st, v)]
+        return super().e_Name(n, st)
 
     def mutated_refs(self, stmts, st):
         refs = super().mutated_refs(stmts, st)
